@@ -137,27 +137,43 @@ def run(ctx):
             ctx.count((head, changes, step, mode), nontrivial=len(changes) > 0)
 
 
+DENSE_MC = """---- MODULE SearchDense ----
+EXTENDS Search
+GivenV == %s
+====
+"""
+
+
 def dense_cases(ctx):
-    """Histories far denser and longer than TLC enumerates (dozens to hundreds of changes, runs of changes on consecutive levels, many changes inside one
-    sampling interval, a change on every sampled level).  What Search.tla proves of the algorithm (invariants AllChangesReported and Increasing) is the expectation: the
-    output is the list of all changes in increasing order, each with the value from that level on."""
+    """Histories far denser and longer than the enumerated universe (dozens to hundreds of changes, runs of changes on consecutive levels, many changes inside one
+    sampling interval, a change on every sampled level), handed to Search.tla as explicit inputs: TLC runs the intended algorithm on each of them probe by probe
+    under the same invariants, and every completed search is replayed like the enumerated ones."""
     import random
+    from ..tlaparse import to_tla
     rng = random.Random(ctx.seed * 7919 + 29)
     cases = []
-    for last, head, step in ((0, 200, 60), (0, 200, 150), (7, 400, 60), (0, 130, 200), (3, 190, 7), (0, 260, 61)):
-        span = range(last + 1, head + 1)
-        cases.append((head, last, tuple(span), step))                                  # a change on every level
-        cases.append((head, last, tuple(range(last + 20, last + 20 + 100)), step))     # 100 consecutive levels, crossing sampled levels
-        cases.append((head, last, tuple(range(head - 40, head + 1)), step))           # a dense run that ends at the head
-        cases.append((head, last, tuple(l for l in span if l % 2), step))
-        cases.append((head, last, tuple(l for l in span if (head - l) % step == 0 or (head - l) % step == 1), step))      # on and next to the sampled levels
+    for head, step in ((200, 60), (200, 150), (400, 60), (130, 200), (190, 7), (260, 61)):
+        span = range(1, head + 1)
+        cases.append((head, frozenset(span), step))                                  # a change on every level
+        cases.append((head, frozenset(range(20, 120)), step))                        # 100 consecutive levels, crossing sampled levels
+        cases.append((head, frozenset(range(head - 40, head + 1)), step))            # a dense run that ends at the head
+        cases.append((head, frozenset(l for l in span if l % 2), step))
+        cases.append((head, frozenset(l for l in span if (head - l) % step == 0 or (head - l) % step == 1), step))      # on and next to the sampled levels
         for _ in range(2 if ctx.quick else 8):
-            cases.append((head, last, tuple(sorted(rng.sample(list(span), rng.randint(17, min(120, len(span)))))), step))
-    for head, last, changes, step in cases:
-        out = tuple((l, k + 1) for k, l in enumerate(changes))
-        compare(ctx, head, last, changes, step, 'all', out, sig='C29:dense')
+            cases.append((head, frozenset(rng.sample(list(span), rng.randint(17, min(120, len(span))))), step))
+    cases = sorted(set(cases), key=lambda c: (c[0], c[2], sorted(c[1])))
+    gen = {'SearchDense': DENSE_MC % to_tla(set(cases))}
+    cfg = (CFG % (0, 0, 0, '1')).replace('INVARIANT AllChangesReported', ' Given <- GivenV\nINVARIANT AllChangesReported', 1)
+    r = ctx.tlc('SearchDense', cfg, name='Search_dense', gen=gen, timeout=1500, coverage=False)
+    ctx.require_no_violation(r, 'Search (dense inputs)')
+    outs = [v for v in r.printed if v[0] == 'OUT']
+    if len(outs) != len(cases):
+        raise Exception('TLC completed %d of %d dense searches' % (len(outs), len(cases)))
+    for v in outs:
+        _, head, changes, step, mode, out = v
+        compare(ctx, head, 0, changes, step, mode, out, sig='C29:dense')
         ctx.replayed += 1
-        ctx.count(('dense', head, last, changes, step), nontrivial=True)
+        ctx.count(('dense', head, changes, step), nontrivial=True)
     ctx.extra['dense_histories'] = len(cases)
 
 
@@ -175,6 +191,6 @@ META = {
              'the bound in which the value never returns, every sampling step and both search functions, that the output is exactly the list of changes in '
              'increasing order (a genuine design check of the algorithm), and every completed search is replayed through the real generator functions.'),
     'design_ref': 'DESIGN.md section 5 C29, A.8',
-    'note': 'Trusted: get() closure over the history, output comparison. Bounds: range <= 9 (13 thorough; a second instance with range <= 40, <= 2 changes), <= 3 (4) changes, steps {1,2,3,5,7,60}; plus 42 (78) dense histories of 17..400 changes over ranges up to 400 levels, judged by the invariants AllChangesReported / Increasing.',
+    'note': 'Trusted: get() closure over the history, output comparison. Bounds: range <= 9 (13 thorough; a second instance with range <= 40, <= 2 changes), <= 3 (4) changes, steps {1,2,3,5,7,60}; plus 42 (78) dense histories of 17..400 changes over ranges up to 400 levels, handed to the specification as explicit inputs (operator Given).',
     'technique': 'TLA+ spec + TLC exhaustive model checking; spec-behaviour replay into find_state_changes / find_state_change',
 }
